@@ -130,3 +130,14 @@ def ntfs_dotgit(s):
     h = ntfs_head_len(s)
     n = len(s)
     return h > 0 and any((e == n or s[e] == 58) and all(s[k] == 46 or s[k] == 32 for k in range(h, e)) for e in range(h, n + 1))
+
+
+def is_ws1(c):
+    """bytes.strip() whitespace: space, \\t, \\n, \\r, VT, FF."""
+    return c == 32 or (9 <= c and c <= 13)
+
+
+def needs_quotes(v):
+    """the config writer must quote v: leading or trailing whitespace, a comment character (# or ;), or CR/VT/FF anywhere."""
+    n = len(v)
+    return (n > 0 and (is_ws1(v[0]) or is_ws1(v[n - 1]))) or any(v[k] == 35 or v[k] == 59 or v[k] == 13 or v[k] == 11 or v[k] == 12 for k in range(0, n))
